@@ -312,13 +312,21 @@ def api_cases(thorough):
         "on-edges": ([0.25, 1.25, 2.25, 3.25, 1.25, 2.25], [0.5, 32.5, 64.5, 96.5, 64.5, 32.5]),
     }
     for dname in datasets:
-        for limits in ("auto", "explicit", "explicit-quantity", "explicit-tight", "half"):
+        for limits in ("auto", "explicit", "explicit-quantity", "explicit-tight", "half", "explicit-np-f4", "explicit-tight-np-i8", "explicit-np-0d", "explicit-tight-pyint",
+                       "explicit-quantity-np-f4"):
             for log in ("lin", "logx", "loglog"):
                 for res in (1, 2, 4):
                     for layers in ("none", "one-sum", "one-mean", "two-mixed", "call-mean", "layer-sum-call-mean"):
                         if not thorough and res == 1 and layers not in ("none", "one-mean"):
                             continue
                         yield {"kind": "api", "data": dname, "limits": limits, "log": log, "res": res, "layers": layers, "xy": datasets[dname]}
+    # element types of the data: float32 and integer coordinates and weights (all values exactly representable)
+    for dt in ("f4", "i8", "i4"):
+        xy = datasets["spread"] if dt == "f4" else ([1, 2, 3, 3, 4], [10, 20, 20, 40, 80])
+        for limits in ("auto", "explicit", "explicit-tight"):
+            for log in ("lin", "loglog"):
+                for layers in ("none", "one-mean", "two-mixed"):
+                    yield {"kind": "api", "data": "spread-" + dt, "limits": limits, "log": log, "res": 4, "layers": layers, "xy": xy, "dtype": dt}
 
 
 def run_api_case(acc, idx, c):
@@ -328,17 +336,24 @@ def run_api_case(acc, idx, c):
     xs, ys = np.array(c["xy"][0], dtype=float), np.array(c["xy"][1], dtype=float)
     logx = c["log"] in ("logx", "loglog")
     logy = c["log"] == "loglog"
-    x, y = A_(xs.copy(), unit="cm", name="x"), A_(ys.copy(), unit="g", name="y")
-    v1 = A_(np.arange(1.0, len(xs) + 1), unit="K", name="v1")
-    v2 = A_(np.arange(1.0, len(xs) + 1) * 100, unit="s", name="v2")
+    dt = {"f4": np.float32, "i8": np.int64, "i4": np.int32}.get(c.get("dtype"), np.float64)
+    x, y = A_(xs.astype(dt), unit="cm", name="x"), A_(ys.astype(dt), unit="g", name="y")
+    v1 = A_(np.arange(1.0, len(xs) + 1).astype(dt), unit="K", name="v1")
+    v2 = A_((np.arange(1.0, len(xs) + 1) * 100).astype(dt), unit="s", name="v2")
     kw = {}
     ex = None
     if c["limits"].startswith("explicit") or c["limits"] == "half":
-        ex = {"xmin": 0.25, "xmax": 4.25, "ymin": 0.5, "ymax": 128.5} if not c["limits"].endswith("tight") else {"xmin": 1.0, "xmax": 3.0, "ymin": 15.0, "ymax": 45.0}
+        ex = {"xmin": 0.25, "xmax": 4.25, "ymin": 0.5, "ymax": 128.5} if "tight" not in c["limits"] else {"xmin": 1.0, "xmax": 3.0, "ymin": 15.0, "ymax": 45.0}
         if c["limits"] == "half":
             ex = {"xmin": ex["xmin"], "ymax": ex["ymax"]}
+        # the same limits given as other number types (all values are exactly representable in each of them)
+        conv = {"explicit-np-f4": np.float32, "explicit-tight-np-i8": np.int64, "explicit-np-0d": np.array, "explicit-tight-pyint": int,
+                "explicit-quantity-np-f4": np.float32}.get(c["limits"], float)
         for k, v in ex.items():
-            kw[k] = (v * osyris.units("cm" if k[0] == "x" else "g")) if c["limits"] == "explicit-quantity" else v
+            if c["limits"].startswith("explicit-quantity"):
+                kw[k] = conv(v) * osyris.units("cm" if k[0] == "x" else "g")
+            else:
+                kw[k] = conv(v)
         if c["limits"] == "explicit-quantity":
             kw["xmin"] = (ex["xmin"] / 100.0) * osyris.units("m")
     ops = []
